@@ -71,7 +71,10 @@ ItemOnValue(it, vars, v) ==      \* [st, vals]
             (IF v.parts = <<PH>> THEN
                  (IF Handled(it, v.phs[1]) THEN [st |-> "ok", vals |-> <<[V("qexpr") EXCEPT !.s = v.phs[1]]>>]
                   ELSE [st |-> "ok", vals |-> <<v>>])
-             ELSE [st |-> "unspec", vals |-> <<>>])       \* documented to accept placeholder-only strings only
+             \* a string mixing placeholders with other parts: an item that handles none of its placeholders leaves it
+             \* alone; for one that does the documentation only says that placeholder-only strings are accepted
+             ELSE IF ~AnyHandled(it, v) THEN [st |-> "ok", vals |-> <<v>>]
+             ELSE [st |-> "unspec", vals |-> <<>>])
         ELSE IF ~AnyHandled(it, v) THEN [st |-> "ok", vals |-> <<v>>]
         ELSE LET c == Combos(it, vars, v.parts, v.phs, 1) IN
              [st |-> c.st, vals |-> [r \in 1..Len(c.out) |-> [v EXCEPT !.parts = c.out[r].parts, !.phs = c.out[r].phs]]]
